@@ -84,4 +84,47 @@ def build(key, variant, i):
                 prmod.render_template = saved
             return NS(template=captured.get('template'), context=captured.get('context'))
         return {'env': env, 'old_env': dict(env), 'call': call}
+    if qual == 'PlayReady.generate_pro':
+        import io
+        import struct
+        n = int(i['wrm_len'])
+        if n % 2 or n < 14 or n > 60000:
+            raise ValueError('no UTF-16 XML document of that length')
+        text = '<A>' + 'x' * ((n - 14) // 2) + '</A>'
+        wrm = text.encode('utf-16-le')
+        state = {}
+
+        def call():
+            pr = PlayReady()
+            pr.generate_wrmheader = lambda *a: wrm
+            pro = pr.generate_pro(None, 'kid', {}, None)
+            state['length'], state['count'] = struct.unpack('<IH', pro[:6])
+            return PlayReady.parse_pro(io.BytesIO(pro))
+        env.update(wrm_len=n, is_wrm_text=lambda t: t == text, is_wrm_xml=lambda x: x is not None and x.getroot().tag == 'A')
+        return {'env': env, 'old_env': dict(env), 'call': call,
+                'post_env': lambda: {'pro_length': state.get('length'), 'pro_count': state.get('count')}}
     raise KeyError(qual)
+
+
+def search(key, variant, i):
+    """Refutation aid for the PRO framing: the real generate_pro -> parse_pro round trip on small WRMHEADERs."""
+    if not key.endswith('PlayReady.generate_pro'):
+        return None
+    import io
+    import struct
+    for n in (14, 40, 1000):
+        text = '<A>' + 'x' * ((n - 14) // 2) + '</A>'
+        wrm = text.encode('utf-16-le')
+        pr = PlayReady()
+        pr.generate_wrmheader = lambda *a: wrm
+        try:
+            pro = pr.generate_pro(None, 'kid', {}, None)
+            length, count = struct.unpack('<IH', pro[:6])
+            recs = PlayReady.parse_pro(io.BytesIO(pro))
+            got = {'length': length, 'count': count, 'records': [(r.record_type, r.length, r.header) for r in recs]}
+        except Exception as err:        # noqa: the failure is the observation
+            got = {'raised': repr(err)}
+        want = {'length': n + 10, 'count': 1, 'records': [(1, n, text)]}
+        if got != want:
+            return {'wrm_len': n, 'observed': str(got)[:300], 'expected': str(want)[:300]}
+    return None
